@@ -2,9 +2,9 @@
 # confirm_seed.sh <Cxx> "<demo cargo test args>" "<existing-suite cargo test args>"
 # Runs inside the seed worktree /tmp/seed-<Cxx> with its own target dir: demo with change (must fail), without (must pass), existing suite with change (must pass).
 P=$1; DEMO=$2; SUITE=$3
-W=/tmp/seed-$P; export CARGO_TARGET_DIR=$W/target CARGO_NET_OFFLINE=true
+W=${SEED_WT:-/tmp/seed-$P}; export CARGO_TARGET_DIR=$W/target CARGO_NET_OFFLINE=true
 cd $W || exit 2
-LOG=/var/tmp/vt/confirm-$P.log; : > $LOG
+LOG=/var/tmp/vt/confirm-${SEED_TAG:-$P}.log; : > $LOG
 echo "== demo WITH change" >> $LOG
 cargo test --offline -j 6 $DEMO >> $LOG 2>&1; A=$?
 git apply -R _seed/patch.diff || { echo "cannot revert" >> $LOG; exit 2; }
